@@ -695,13 +695,21 @@ def _c04(case, p, meta, tdir, res, fex, q, slots, NS, tag):
     if "balanced" not in case.tags:
         return
     sp = meta["species"]
-    elems = sorted({e for s in sp for e in s["element_count"]})
+    comp = getattr(case, "composition", None)
+
+    def counts(s):
+        """(element counts, charge) of a species: the corpus' hand-written table, not the generator's parser"""
+        if comp is not None:
+            ec, ch = comp[case.canon(s["name"])]
+            return dict(ec), ch
+        return ({} if s["is_electron"] else dict(s["element_count"])), s["charge"]
+
+    elems = sorted({e for s in sp for e in counts(s)[0]})
     for e in elems + ["$charge"]:
         tot = z3.RealVal(0)
         for s in sp:
-            c = s["charge"] if e == "$charge" else s["element_count"].get(e, 0)
-            if e != "$charge" and s["is_electron"]:
-                c = 0
+            ec, ch = counts(s)
+            c = ch if e == "$charge" else ec.get(e, 0)
             if c:
                 tot = tot + c * R(fex.ydot[slots[case.canon(s["name"])]])
         r, m = q.differs(tot, z3.RealVal(0))
@@ -712,5 +720,53 @@ def _c04(case, p, meta, tdir, res, fex, q, slots, NS, tag):
                 _ob(res, "C04")["samples"].append({"obligation": name, "query": f"sum_s count_{e}(s) * ydot_s != 0", "verdict": "unsat"})
         elif r == "sat":
             _viol(res, "C04", name, f"generated dynamics do not conserve {e} although every input reaction does", {"case": case.name, "target": tdir, "element": e, "spec": _small_spec(case)})
+        else:
+            _unk(res, "C04", name, r)
+    _c04_helper(case, p, meta, tdir, res, q, slots, NS, tag, counts)
+
+
+def _c04_helper(case, p, meta, tdir, res, q, slots, NS, tag, counts):
+    """GetElementAbund of the emitted naunet_physics.cpp, executed symbolically on an arbitrary abundance
+    vector, equals the count-weighted sum of abundances (counts from the corpus table)."""
+    from . import harness as H
+    from .irsym import Ptr, State
+
+    macros = p.macros(tdir)
+    els = [next(iter(el["element_count"])) for el in meta["elements"]]
+    if not els:
+        return
+    L = ode.load_physics(p, tdir)
+    if L.errors:
+        tu, err = next(iter(L.errors.items()))
+        _unk(res, "C04", f"{tag}:GetElementAbund:compile", f"{tu}: " + next((l for l in err.splitlines() if "error:" in l), err[:160])[-160:])
+        return
+    res["functions"].append(f"{tdir}:GetElementAbund")
+    ab = [z3.Real(f"ab{i}") for i in range(NS)]
+    fn = L.find(r"^GetElementAbund\(")
+    for en in els:
+        name = f"{tag}:GetElementAbund[{en}]"
+        if "IDX_ELEM_" + en not in macros:
+            _viol(res, "C04", name, f"no index macro IDX_ELEM_{en} for element {en}", {"case": case.name, "target": tdir})
+            continue
+        st = State()
+        H.make_array(st, "v", NS, ab)
+        try:
+            _, v = L.M.run_function(fn, st, [Ptr("v", 0), macros["IDX_ELEM_" + en]])
+        except Inconclusive as ex:
+            _unk(res, "C04", name, str(ex)[:160])
+            continue
+        ref = z3.RealVal(0)
+        for s in meta["species"]:
+            c = counts(s)[0].get(en, 0)
+            if c:
+                ref = ref + c * ab[slots[case.canon(s["name"])]]
+        r, m = q.differs(v, ref)
+        if r == "unsat":
+            _ok(res, "C04")
+            if sum(1 for x in _ob(res, "C04")["samples"] if "GetElementAbund" in x["obligation"]) < 1:
+                _ob(res, "C04")["samples"].append({"obligation": name, "query": "GetElementAbund(ab, e) != sum_s count_e(s) * ab_s", "emitted": str(z3.simplify(R(v)))[:200], "verdict": "unsat"})
+        elif r == "sat":
+            pt = {str(d): str(m[d]) for d in m.decls()[:12]} if m is not None else {}
+            _viol(res, "C04", name, f"GetElementAbund({en}) = {str(z3.simplify(R(v)))[:160]} is not the count-weighted sum of abundances {str(z3.simplify(ref))[:160]}", {"case": case.name, "target": tdir, "element": en, "model": pt, "spec": _small_spec(case), "replay_note": "linear identity over the compiled helper; differing coefficients are visible in emitted naunet_physics.cpp"})
         else:
             _unk(res, "C04", name, r)
